@@ -85,6 +85,13 @@ def gen_config(draw, nclasses=None, overloads=True, extends=True, keywords=True,
             name = "m%d" % j if draw(st.integers(0, 3)) else "%s%d" % (c[0].lower(), j)
             has_overload = overloads and draw(st.integers(0, 4)) == 0
             # overload sets get rest parameters more often (a rest-bound overload next to a fixed-arity one is the interesting shape)
+            if has_overload and draw(st.integers(0, 3)) == 0:
+                # overloads told apart by their count alone (plain required positionals): their load order cannot matter
+                k1, k2 = draw(st.sampled_from([(0, 1), (1, 2), (2, 1), (1, 3), (2, 0)]))
+                for kk in (k1, k2):
+                    ims.append({"name": name, "args": [{"types": draw(gen_type(classes, allow_untyped=False)), "key": None, "default": False, "rest": False}
+                                                       for _ in range(kk)], "ret": draw(gen_type(classes, allow_untyped=False)), "block": []})
+                continue
             if has_overload and rest and draw(st.integers(0, 2)) == 0:
                 # a rest-bound overload of one element type followed by a fixed-arity overload of another type: a call with one
                 # argument too many for the second is rejected by both (state of the first attempt must not reach the second)
